@@ -186,3 +186,6 @@ def run(ctx):
     r4_2(ctx)  # an eligible combination that can_add_resources rejects starves a READY task for ever
     from ..initflags import group_rule
     group_rule(ctx, "R3.7", "pairing", "a resource keeps a stale assignment that no task will ever release: it stays WORKING for ever and a feasible project runs into max_time")
+    # "predecessors that complete within a single step": the finish check is closed over FF/SF chains (shared with C06)
+    from .C06 import r6_4
+    r6_4(ctx)
